@@ -951,7 +951,7 @@ def falsy_options(ctx, rng, drv):
 
 # --------------------------------------------------------------------------- mesh x dim x mean/trend kind x normalizer x flags cells
 
-GRID_SHAPES = {1: [(6,), (7,)], 2: [(3, 3), (4, 2)], 3: [(2, 2, 2), (3, 2, 2)]}
+GRID_SHAPES = {1: [(6,), (7,), (1,), (2,)], 2: [(3, 3), (4, 2), (2, 1), (1, 1)], 3: [(2, 2, 2), (3, 2, 2), (3, 1, 1), (1, 2, 1)]}
 
 
 def cell_methods(marg, sd):
@@ -1427,7 +1427,9 @@ def input_classes(ctx, rng):
         variants = [("list", list(x), base, 1e-12), ("tuple", tuple(x), base, 1e-12), ("float32", x.astype(np.float32), impl_call(f, x.astype(np.float32).astype(float), **kw), 3e-5),
                     ("int64", xi, base_i, 1e-12), ("int32", xi.astype(np.int32), base_i, 1e-12), ("list of int", [int(q) for q in xi], base_i, 1e-12),
                     ("2-d", x.reshape(3, 4), None if is_err(base) or name == "array_force_moments" and False else (base.reshape(3, 4) if not is_err(base) else base), 1e-12),
-                    ("non-contiguous view", big[:, 1], base, 1e-12), ("reversed view", x[::-1], None, 1e-12)]
+                    ("non-contiguous view", big[:, 1], base, 1e-12), ("reversed view", x[::-1], None, 1e-12),
+                    ("Fortran-ordered 2-d", np.asfortranarray(x.reshape(3, 4)), (base.reshape(3, 4) if not is_err(base) else base), 1e-12),
+                    ("(n,1) column", x.reshape(12, 1), (base.reshape(12, 1) if not is_err(base) else base), 1e-12)]
         if name != "array_force_moments":     # the sample variance of a single value is 0: 0/0 by definition
             one = impl_call(f, x[:1], **kw) if not (kw.get("mean", 0) is None) else None
             variants += [("0-d array", np.array(x[0]), one, 1e-12), ("numpy scalar", np.float64(x[0]), one, 1e-12), ("python float", float(x[0]), one, 1e-12),
@@ -1443,8 +1445,10 @@ def input_classes(ctx, rng):
                 ok = is_err(got) and got[:2] == want[:2]
             else:
                 ok = (not is_err(got)) and np.asarray(got).size == np.asarray(want).size and close(np.ravel(got), np.ravel(want), rtol=rt, scale=1.0 + np.abs(np.ravel(want)))
-                if ok and vname in ("2-d",):
-                    ok = np.shape(got) == (3, 4)
+                if ok and vname in ("2-d", "Fortran-ordered 2-d"):
+                    ok = np.shape(got) == (3, 4) and bool(np.allclose(got, np.reshape(want, (3, 4)), rtol=1e-12, atol=0, equal_nan=True))
+                if ok and vname == "(n,1) column":
+                    ok = np.shape(got) == (12, 1)
             if not ok:
                 report(ctx, "probe: %s with the field given as %s" % (name, vname),
                        "%s(field as %s) differs from the result for the equivalent float64 array" % (name, vname),
@@ -1477,6 +1481,168 @@ def input_classes(ctx, rng):
                 report(ctx, "probe: %s with options given as %s" % (name, tname), "%s: options as %s give another result than the same values as Python floats" % (name, tname),
                        dict(function=name, kwargs={k: repr(v_) for k, v_ in dict(kw, **kw2).items()}, field=hexl(x), got=(list(got) if is_err(got) else hexl(got)),
                             want=(list(want) if is_err(want) else hexl(want))), key="option-class:%s" % name)
+
+
+# --------------------------------------------------------------------------- round 5: integer-typed options, layouts, object semantics
+
+def int_spellings(v):
+    """an integer value in the integer types a caller may pass"""
+    out = [("int", int(v)), ("np.int64", np.int64(v)), ("np.int32", np.int32(v)), ("np.int16", np.int16(v)), ("0-d int array", np.array(int(v)))]
+    # unsigned numpy scalars are left out: np.uint8(5) - (-3) raises OverflowError in numpy itself (loud, not a GSTools matter)
+    return out
+
+
+def integer_options(ctx, rng, drv):
+    """EVERY numeric option of every transformation (array functions and Field.transform wrappers, field mean / trend / model variance
+    included) as an integer-typed value with |value| >= 2, positive and negative, in all integer spellings (int, np.int64/32/16,
+    0-d integer array), one option at a time and all together: the result must be the one of the same values given as floats
+    (numpy helpers keep integer dtypes: np.reciprocal(2) == 0, 2 ** -1 raises, int8 overflows)."""
+    from gstools.transform import array as A
+    import gstools as gs
+    x = np.concatenate([rng.normal(0.4, 1.1, size=14), [0.0, 2.0, -3.0]])
+    xp = np.abs(x) * 0.2                                    # Box-Cox with negative lmbda: keep lmbda*(x+shift)+1 > 0 for most cells
+    plans = [
+        ("array_to_uniform", x, dict(mean=2, var=4, low=-3, high=5)), ("array_to_uniform", x, dict(mean=-3, var=2, low=2, high=3)),
+        ("array_to_arcsin", x, dict(mean=2, var=2, a=-3, b=5)), ("array_to_arcsin", x, dict(mean=-2, var=3)),
+        ("array_to_uquad", x, dict(mean=2, var=2, a=-3, b=5)), ("array_to_uquad", x, dict(mean=-2, var=3)),
+        ("array_to_uquad", x, dict(mean=2, var=4, a=-2)), ("array_to_arcsin", x, dict(mean=-3, var=4, b=2)),
+        ("array_zinnharvey", x, dict(conn="high", mean=2, var=3)), ("array_zinnharvey", x, dict(conn="low", mean=-2, var=2)),
+        ("array_force_moments", x, dict(mean=3, var=2)), ("array_force_moments", x, dict(mean=-2, var=5)),
+        ("array_boxcox", x, dict(lmbda=2, shift=3)), ("array_boxcox", x, dict(lmbda=3, shift=2)), ("array_boxcox", x, dict(lmbda=2, shift=-2)),
+        ("array_boxcox", xp, dict(lmbda=-2, shift=0)), ("array_boxcox", xp, dict(lmbda=-3, shift=0)), ("array_boxcox", x, dict(lmbda=5, shift=2)),
+        ("array_discrete", x, dict(values=[-2, 2, 5], thresholds="equal", mean=2, var=3)),
+    ]
+    for fn, data, kw in plans:
+        f = getattr(A, fn)
+        num = [k for k, v_ in kw.items() if isinstance(v_, int) and not isinstance(v_, bool)]
+        want = impl_call(f, data, **{k: (float(v_) if k in num else v_) for k, v_ in kw.items()})
+        subsets = [[k] for k in num] + [num]
+        for sub in subsets:
+            for idx in range(6):
+                kw2 = dict(kw)
+                tn = None
+                for k in num:
+                    sp = int_spellings(kw[k])
+                    if k in sub:
+                        tn, val = sp[idx % len(sp)]
+                        kw2[k] = val
+                    else:
+                        kw2[k] = float(kw[k])
+                got = impl_call(f, data, **kw2)
+                ctx.count(("int-option", fn, "+".join(sub), idx, tuple(sorted(kw.items(), key=str))[0:1] and str(sorted(kw.items(), key=str))),
+                          hist=dict(int_option="%s.%s" % (fn, "+".join(sub) if len(sub) == 1 else "all")))
+                ok = (is_err(want) and is_err(got) and got[:2] == want[:2]) or (
+                    not is_err(want) and not is_err(got) and close(got, want, rtol=1e-12, scale=1.0 + np.abs(np.nan_to_num(want, posinf=0.0, neginf=0.0))))
+                if not ok:
+                    report(ctx, "probe: %s with integer-typed %s" % (fn, ", ".join(sub)),
+                           "%s: %s given as integer(s) (%s) give another result than the same value(s) as floats" % (fn, ", ".join(sub), tn),
+                           dict(function=fn, kwargs={k: "%s(%r)" % (type(v_).__name__, v_.tolist() if isinstance(v_, np.ndarray) else v_) for k, v_ in kw2.items()},
+                                field=hexl(data), got=(list(got) if is_err(got) else hexl(got)), want=(list(want) if is_err(want) else hexl(want))),
+                           key="int-option:%s:%s" % (fn, "+".join(sub) if len(sub) == 1 else "all"))
+    # values / thresholds of array_discrete as integer lists and integer arrays
+    for values, thr in (([-2, 2, 5], [-1, 3]), ([3, -3], [2]), ([-2, 0, 2, 7], "arithmetic")):
+        wantd = impl_call(A.array_discrete, x, [float(q) for q in values], thr if isinstance(thr, str) else [float(q) for q in thr])
+        for tname, conv in (("list of int", lambda q: [int(i) for i in q]), ("int64 array", lambda q: np.array(q, dtype=np.int64)), ("int8 array", lambda q: np.array(q, dtype=np.int8)),
+                            ("tuple of np.int32", lambda q: tuple(np.int32(i) for i in q))):
+            gotd = impl_call(A.array_discrete, x, conv(values), thr if isinstance(thr, str) else conv(thr))
+            ctx.count(("int-option", "array_discrete", tname, len(values)), hist=dict(int_option="array_discrete.values/thresholds"))
+            if is_err(wantd) or is_err(gotd) or not bool((gotd == wantd).all()):
+                report(ctx, "probe: array_discrete with integer values / thresholds (%s)" % tname, "array_discrete: integer-typed values / thresholds change the result",
+                       dict(field=hexl(x), values=values, thresholds=thr, container=tname, got=(list(gotd) if is_err(gotd) else hexl(gotd)),
+                            want=(list(wantd) if is_err(wantd) else hexl(wantd))), key="int-option:array_discrete:values")
+    # Field.transform wrappers: integer options, integer field mean / trend / model variance
+    n = len(x)
+    wplans = [("normal_to_uniform", dict(low=-3, high=2)), ("normal_to_arcsin", dict(a=-2, b=5)), ("normal_to_uquad", dict(a=-3, b=4)), ("normal_to_uquad", dict(b=6)),
+              ("boxcox", dict(lmbda=2, shift=3)), ("boxcox", dict(lmbda=3, shift=2)), ("binary", dict(divide=2, upper=5, lower=-3)), ("binary", dict(upper=4)),
+              ("discrete", dict(values=[-2, 2, 5], thresholds=[1, 3])), ("discrete", dict(values=[-2, 2, 5], thresholds="equal")), ("zinnharvey", {}),
+              ("normal_force_moments", {}), ("normal_to_lognormal", {})]
+    for idx, (mean_i, var_i, trend_i) in enumerate(((2, 3, None), (-2, 2, 3), (3, 4, -2))):
+        def build(as_int, spell):
+            cv = (lambda q: int_spellings(q)[spell % len(int_spellings(q))][1]) if as_int else float
+            fld = gs.SRF(gs.Gaussian(dim=1, var=cv(var_i), len_scale=2), mean=cv(mean_i), trend=None if trend_i is None else cv(trend_i))
+            fld.set_pos([np.arange(n, dtype=float)], "unstructured")
+            fld.post_field(x * math.sqrt(var_i) + mean_i + (trend_i or 0), name="field", process=False, save=True)
+            return fld
+        for spell in range(3):
+            for process in ((True, False) if trend_i is None else (True,)):
+                for mname, kw in wplans:
+                    kwi = {k: ([int_spellings(q)[spell % len(int_spellings(q))][1] for q in v_] if isinstance(v_, list) else v_ if isinstance(v_, str) else int_spellings(v_)[spell % len(int_spellings(v_))][1])
+                           for k, v_ in kw.items()}
+                    kwf = {k: ([float(q) for q in v_] if isinstance(v_, list) else v_ if isinstance(v_, str) else float(v_)) for k, v_ in kw.items()}
+                    keep_mean = bool((spell + idx) % 2)
+                    want = impl_call(build(False, 0).transform, mname, store=False, process=process, keep_mean=keep_mean, **kwf)
+                    got = impl_call(build(True, spell).transform, mname, store=False, process=process, keep_mean=keep_mean, **kwi)
+                    ctx.count(("int-option", "wrapper", mname, str(sorted(kw)), idx, spell, process), hist=dict(int_option="Field.transform " + mname))
+                    ok = (is_err(want) and is_err(got) and got[:2] == want[:2]) or (not is_err(want) and not is_err(got) and close(got, want, rtol=1e-12, scale=1.0 + np.abs(want)))
+                    if not ok:
+                        report(ctx, "probe: Field.transform('%s') with integer-typed options / field parameters" % mname,
+                               "Field.transform('%s', process=%s): integer-typed options, mean, trend or variance give another result than the same values as floats" % (mname, process),
+                               dict(method=mname, kwargs={k: repr(v_) for k, v_ in kwi.items()}, mean=repr(int_spellings(mean_i)[spell % len(int_spellings(mean_i))][1]), var=var_i, trend=trend_i,
+                                    process=process, keep_mean=keep_mean, field=hexl(x * math.sqrt(var_i) + mean_i + (trend_i or 0)),
+                                    got=(list(got) if is_err(got) else hexl(got)), want=(list(want) if is_err(want) else hexl(want))), key="int-option:wrapper:%s" % mname)
+
+
+def object_semantics(ctx, rng):
+    """results are functions of the object's own present parameters and of the call's arguments only: keyword order of the **kwargs API,
+    copy.deepcopy of the Field, other Field objects created / transformed in between (no shared state), memory layout of structured fields"""
+    import copy
+    import gstools as gs
+
+    def make(mean, norm, trend, seed_data):
+        f = gs.SRF(gs.Exponential(dim=2, var=0.6, nugget=0.1), mean=mean, normalizer=norm, trend=trend)
+        ax = (np.linspace(0, 2, 4), np.linspace(0, 1, 3))
+        f.set_pos(ax, "structured")
+        f.post_field(seed_data, name="field", process=False, save=True)
+        return f
+    z = rng.normal(1.4, math.sqrt(0.7), size=(4, 3))
+    methods = [("normal_to_uniform", dict(low=-1.0, high=2.0)), ("normal_to_arcsin", dict(a=-2.0, b=3.0)), ("normal_to_uquad", dict(b=4.0, a=-1.0)),
+               ("boxcox", dict(lmbda=0.5, shift=1.0)), ("binary", dict(divide=1.2, upper=3.0, lower=0.5)), ("discrete", dict(values=[0.0, 1.0, 3.0], thresholds=[1.0, 2.0])),
+               ("zinnharvey", dict(conn="low")), ("normal_force_moments", {}), ("normal_to_lognormal", {})]
+    for norm_kind in (0, 1):
+        for process in (False, True):
+            if norm_kind and not process:
+                continue
+            norm = gs.normalizer.LogNormal() if norm_kind else None
+            data = np.exp(z) if norm_kind else z
+            fld = make(1.4, norm, None, data)
+            for mname, kw in methods:
+                flags = dict(store=False, process=process, keep_mean=False)
+                ref = impl_call(fld.transform, mname, **dict(kw, **flags))
+                variants = []
+                # keyword order
+                allkw = dict(kw, **flags)
+                variants.append(("reversed keyword order", impl_call(fld.transform, mname, **dict(reversed(list(allkw.items()))))))
+                variants.append(("flags before options", impl_call(fld.transform, mname, **dict(list(flags.items()) + list(kw.items())))))
+                # deep copy behaves like the original and is independent of it
+                cp = copy.deepcopy(fld)
+                variants.append(("copy.deepcopy of the field", impl_call(cp.transform, mname, **allkw)))
+                impl_call(cp.transform, mname, **dict(allkw, store=True))
+                if not C.bit_equal(fld["field"], data):
+                    variants.append(("original changed by a transformation stored in its deep copy", ("err", 0, "changed")))
+                # interference: other objects with other parameters are created and transformed in between
+                other = make(-3.0, gs.normalizer.BoxCox(lmbda=0.3), 0.5, np.abs(z) + 1.0)
+                impl_call(other.transform, mname, **dict(kw, store=True, process=True, keep_mean=True))
+                other2 = gs.SRF(gs.Gaussian(dim=1, var=9.0), mean=7.0)
+                other2.set_pos([np.arange(5.0)], "unstructured")
+                other2.post_field(np.arange(5.0) + 6, name="field", process=False, save=True)
+                impl_call(other2.transform, mname, **dict(kw, store="x", process=False))
+                variants.append(("after transforming other Field objects", impl_call(fld.transform, mname, **allkw)))
+                # memory layout of the stored field
+                for lname, arr in (("Fortran-ordered stored field", np.asfortranarray(data)), ("transposed-view stored field", np.ascontiguousarray(data.T).T),
+                                   ("strided stored field", np.repeat(data, 2, axis=1)[:, ::2])):
+                    f2 = make(1.4, norm, None, data)
+                    setattr(f2, "field", arr)
+                    variants.append((lname, impl_call(f2.transform, mname, **allkw)))
+                for vname, got in variants:
+                    ctx.count(("object", mname, vname, norm_kind, process), hist=dict(object_semantics=vname))
+                    tight = mname != "normal_force_moments" or "stored field" not in vname        # summation order follows the memory layout
+                    ok = (is_err(ref) and is_err(got) and got[:2] == ref[:2]) or (not is_err(ref) and not is_err(got) and got.shape == ref.shape and (
+                        C.bit_equal(got, ref) if tight else close(got, ref, rtol=1e-12, scale=1.0 + np.abs(ref))))
+                    if not ok:
+                        report(ctx, "probe: Field.transform('%s') — %s" % (mname, vname),
+                               "Field.transform('%s', process=%s): the result depends on %s" % (mname, process, vname),
+                               dict(method=mname, kwargs=kw, process=process, normalizer=norm_kind, variant=vname, field=hexl(data),
+                                    got=(list(got) if is_err(got) else hexl(got)), want=(list(ref) if is_err(ref) else hexl(ref))), key="object:%s" % vname)
 
 
 # --------------------------------------------------------------------------- run
@@ -1532,9 +1698,11 @@ def run(ctx):
             grid_cells(ctx, C.Rng(ctx.seed, "C19/cells"), drv)
             threshold_approach(ctx, C.Rng(ctx.seed, "C19/thresholds"), drv)
             scale_ratios(ctx, C.Rng(ctx.seed, "C19/ratios"), drv)
+            integer_options(ctx, C.Rng(ctx.seed, "C19/intopts"), drv)
         n_corr = len(ctx.violations) - n0
         probe_store(ctx, C.Rng(ctx.seed, "C19/store"))
         input_classes(ctx, C.Rng(ctx.seed, "C19/classes"))
+        object_semantics(ctx, C.Rng(ctx.seed, "C19/objects"))
         probe_partition(ctx, C.Rng(ctx.seed, "C19/partition"))
         probe_pointwise(ctx, C.Rng(ctx.seed, "C19/pointwise"))
         probe_ks(ctx, C.Rng(ctx.seed, "C19/ks"))
